@@ -23,7 +23,9 @@ TECHNIQUE = "model-based stateful histories (Hypothesis, data-driven) vs naive s
 RULE = (
     "2..7 devices drawn from 19 device types (Climate with and without nested ClimateMode), each constructor group-address parameter "
     "bound to None, one or several (passive) addresses from a pool of 4 group + 2 internal addresses; histories of up to 24 "
-    "add / remove steps incl. duplicate add, re-add and remove of unregistered devices, registry started or not; after every step "
+    "add / remove steps incl. duplicate add, re-add and remove of unregistered devices, registry started or not; devices may carry a set-up fault "
+    "(sync_state=' ' that the StateUpdater cannot parse, or register_state_updater / async_start_tasks patched to raise always / once) so that "
+    "async_add raises half-way; after every step "
     "a write, read or response telegram to every pool address, an unused group address and an individual address; "
     "non-trivial = some telegram had >= 2 expected receivers after at least one removal, or an erroneous add/remove was exercised with devices registered; "
     "distinct by (devices, history)"
@@ -33,7 +35,7 @@ LEVEL_TEXT = (
     "reference list (same devices, once each, registration order); duplicate add / unknown remove must raise ValueError and leave "
     "iteration order, length, membership, lookups, the registry callback on each device and dispatch unchanged."
 )
-LEVEL_NOTE = "Devices' own process() is replaced by a recorder (dispatch only); has_group_address of the device classes is trusted as the definition of 'uses the address'."
+LEVEL_NOTE = "An add that fails inside the device's own set-up may leave the device registered or not (outcome read from `device in registry`), but iteration, len, membership, callbacks, lookup and dispatch must agree on it and a later remove must work. Devices' own process() is replaced by a recorder (dispatch only); has_group_address of the device classes is trusted as the definition of 'uses the address'."
 ASSUMPTIONS = [
     "'uses its group address' = Device.has_group_address(address) of the registered device",
     "the error for duplicate add / unknown remove is ValueError (Devices.async_add / async_remove)",
@@ -71,12 +73,26 @@ TYPES: dict[str, tuple[list[str], dict]] = {
 TYPE_NAMES = sorted(TYPES)
 
 
+SYNC_TYPES = {"Switch", "BinarySensor", "Light", "Cover", "Fan", "FanStep", "Climate", "ClimateWithMode", "ClimateMode", "Sensor", "NumericValue", "RawValue", "Notification", "DateTimeDevice", "Weather"}
+
+
+class SetupFault(Exception):
+    """Raised by a patched set-up method of a device (fault injection)."""
+
+
 def build_device(xknx, idx: int, spec):
-    """spec = [type name, [binding per address keyword]]; binding None | int | [ints] (first active, rest passive)."""
+    """spec = [type name, [binding per address keyword], fault]; binding None | int | [ints] (first active, rest passive).
+
+    fault: None | "blank_sync" (sync_state=" ": StateUpdater cannot parse it, register_state_updater raises if the
+    device has a state address) | ["state_updater" | "start_tasks", "always" | "once"] (method patched on the instance).
+    """
     import xknx.devices as D
 
-    tname, bindings = spec
+    tname, bindings = spec[0], spec[1]
+    fault = spec[2] if len(spec) > 2 else None
     names, extra = TYPES[tname]
+    if fault == "blank_sync" and tname in SYNC_TYPES:
+        extra = {**extra, "sync_state": " "}
     kw: dict = {}
     mode_kw: dict = {}
     for name, b in zip(names, bindings):
@@ -90,7 +106,20 @@ def build_device(xknx, idx: int, spec):
     cls_name = {"FanStep": "Fan", "ClimateWithMode": "Climate"}.get(tname, tname)
     if tname == "ClimateWithMode":
         kw["mode"] = D.ClimateMode(xknx, f"d{idx}-mode", **mode_kw)
-    return getattr(D, cls_name)(xknx, f"d{idx}", **kw, **extra)
+    dev = getattr(D, cls_name)(xknx, f"d{idx}", **kw, **extra)
+    if isinstance(fault, list):
+        mname = "register_state_updater" if fault[0] == "state_updater" else "async_start_tasks"
+        orig = getattr(dev, mname)
+        left = [1 if fault[1] == "once" else 10**9]
+
+        def faulty(*a, **k):
+            if left[0] > 0:
+                left[0] -= 1
+                raise SetupFault(f"{mname} of {dev.name} fails")
+            return orig(*a, **k)
+
+        setattr(dev, mname, faulty)
+    return dev
 
 
 _binding = st.one_of(
@@ -108,7 +137,15 @@ def device_specs(draw):
     b = [draw(_binding) for _ in names]
     if all(x is None for x in b):
         b[draw(st.integers(0, len(b) - 1))] = draw(st.integers(0, len(POOL) - 1))
-    return [t, b]
+    fault = draw(
+        st.one_of(
+            st.none(),
+            st.none(),
+            st.just("blank_sync"),
+            st.tuples(st.sampled_from(["state_updater", "start_tasks"]), st.sampled_from(["always", "once"])).map(list),
+        )
+    )
+    return [t, b, fault]
 
 
 @st.composite
@@ -164,17 +201,26 @@ def oracle(ctx, h) -> None:
                 dev = devices[i]
                 before = list(model)
                 expect_error = (name == "add") == (i in model)
+                fault = h["devices"][i][2] if len(h["devices"][i]) > 2 else None
+                setup_failed = False
                 try:
                     if name == "add":
                         reg.async_add(dev)
                     else:
                         reg.async_remove(dev)
                     raised = None
-                except ValueError as e:
-                    raised = e
                 except Exception as e:  # noqa: BLE001
-                    ctx.fail(f"C37:exc:{name}:{exc_site(e)}", h, f"step {step} {name} d{i} ({h['devices'][i][0]}) raised {e!r}")
-                    return
+                    if name == "add" and not expect_error and fault is not None:
+                        # the device's own set-up failed inside async_add: either outcome (registered / not
+                        # registered) is accepted, but every view of the registry has to agree on it
+                        setup_failed = True
+                        raised = None
+                        info["cls"].add("add-fails-in-set-up:" + (fault if isinstance(fault, str) else fault[0]))
+                    elif isinstance(e, ValueError):
+                        raised = e
+                    else:
+                        ctx.fail(f"C37:exc:{name}:{exc_site(e)}", h, f"step {step} {name} d{i} ({h['devices'][i][0]}) raised {e!r}")
+                        return
                 if expect_error:
                     info["cls"].add("duplicate-add" if name == "add" else "remove-unregistered")
                     if model:
@@ -186,7 +232,13 @@ def oracle(ctx, h) -> None:
                     if raised is not None:
                         ctx.fail(f"C37:spurious-error:{name}", h, f"step {step}: {name} d{i} raised {raised!r} although it was {'not ' if name == 'add' else ''}registered")
                         return
-                    if name == "add":
+                    if name == "add" and setup_failed:
+                        if dev in reg:
+                            model.append(i)
+                            info["cls"].add("failed-set-up-left-registered")
+                        if model:
+                            info["nontrivial"] = True
+                    elif name == "add":
                         if i in ever_removed:
                             info["cls"].add("re-add")
                         model.append(i)
@@ -196,7 +248,7 @@ def oracle(ctx, h) -> None:
                         removed_once = True
                         info["cls"].add("remove")
                 # ---- registry views --------------------------------------------
-                what = "changed-by-failed-" + name if expect_error else "after-" + name
+                what = "changed-by-failed-" + name if expect_error else ("after-add-failing-in-set-up" if setup_failed else "after-" + name)
                 listed = [devices.index(d) for d in reg]
                 if listed != model:
                     ctx.fail(f"C37:iteration:{what}", h, f"step {step}: registry iterates {listed}, reference {model} (before {before})")
